@@ -131,16 +131,24 @@ func vfC13(nPre, nSteps int, kinds []int, maxType int) {
 		}
 		g.elecPend, g.sessPend = false, false
 	}
-	// pre-state: operations handed to the client
+	// pre-state: operations handed to the client, each in its own request or all in ONE request
+	var preOps []*spb.AFTOperation
 	for i := 0; i < nPre; i++ {
 		if vfBool("pre.live") {
 			d, op := vfSymCOp("pre", kinds, maxType)
-			c.Q(&spb.ModifyRequest{Operation: []*spb.AFTOperation{op}})
+			preOps = append(preOps, op)
 			if g.pending[d.id] != nil {
 				g.sendErrs++
 			} else {
 				g.pending[d.id] = d
 			}
+		}
+	}
+	if len(preOps) > 1 && vfBool("pre.one-request") {
+		c.Q(&spb.ModifyRequest{Operation: preOps})
+	} else {
+		for _, op := range preOps {
+			c.Q(&spb.ModifyRequest{Operation: []*spb.AFTOperation{op}})
 		}
 	}
 	g.check(c)
